@@ -89,19 +89,28 @@ inductive Err
 abbrev R := Except Err Obj
 
 /-- `Term(*components)`: duplicates removed, first occurrence kept. -/
-def dedup : List Atom → List Atom
+def dedup [BEq α] : List α → List α
   | [] => []
-  | a :: rest => let r := dedup rest; a :: r.filter (fun b => !(b == a))
+  | a :: rest => a :: (dedup rest).filter (fun b => !(b == a))
+
+/-- `[f(x) for x in xs]` where `f` may raise: the first exception propagates. -/
+def mapE (f : α → Except Err β) : List α → Except Err (List β)
+  | [] => pure []
+  | x :: xs => do
+    let y ← f x
+    let ys ← mapE f xs
+    pure (y :: ys)
 
 def mkTerm (cs : List Atom) : CTerm := .term (dedup cs)
 
 /-- `Model(*terms)`: no de-duplication. -/
-def mkModel (ts : List Obj) : Except Err ModelV :=
-  ts.foldlM (fun m t =>
-    match t with
-    | .c x => pure { m with common := m.common ++ [x] }
-    | .g x => pure { m with group := m.group ++ [x] }
-    | _ => .error .valueError) {}
+def mkModelFrom (m : ModelV) : List Obj → Except Err ModelV
+  | [] => pure m
+  | .c x :: ts => mkModelFrom { m with common := m.common ++ [x] } ts
+  | .g x :: ts => mkModelFrom { m with group := m.group ++ [x] } ts
+  | _ :: _ => .error .valueError
+
+def mkModel (ts : List Obj) : Except Err ModelV := mkModelFrom {} ts
 
 def modelOfC (ts : List CTerm) : ModelV := { common := ts }
 
@@ -115,7 +124,11 @@ def addTerm (m : ModelV) : Obj → Except Err ModelV
 def terms (m : ModelV) : List Obj := m.common.map .c ++ m.group.map .g
 
 /-- `Model.__add__(Model)` : `for term in other.terms: self.add_term(term)` -/
-def addModel (m o : ModelV) : Except Err ModelV := (terms o).foldlM addTerm m
+def addTerms (m : ModelV) : List Obj → Except Err ModelV
+  | [] => pure m
+  | t :: ts => do addTerms (← addTerm m t) ts
+
+def addModel (m o : ModelV) : Except Err ModelV := addTerms m (terms o)
 
 def removeFirst [BEq α] (x : α) : List α → List α
   | [] => []
@@ -214,7 +227,7 @@ def mul : Obj → Obj → R
     else if numericSingle (.term b) then .error .typeError
     else pure (.model (modelOfC [.term a, .term b, mkTerm (a ++ b)]))
   | .c (.term a), .model m => do
-    let iterms ← m.common.mapM (fun t => inter (.term a) t)
+    let iterms ← mapE (fun t => inter (.term a) t) m.common
     pure (.model (← addInteractions (.term a :: m.common) iterms))
   -- Model.__mul__
   | .model m, .model o => do
@@ -225,13 +238,13 @@ def mul : Obj → Obj → R
       match o.common with
       | [single] => let _ ← comps single
       | _ => pure ()
-      let iterms ← (m.common.flatMap (fun x => o.common.map (fun y => (x, y)))).mapM
-        (fun p => inter p.1 p.2)
+      let iterms ← mapE (fun p => inter p.1 p.2)
+        (m.common.flatMap (fun x => o.common.map (fun y => (x, y))))
       pure (.model (← addInteractions (m.common ++ o.common) iterms))
   | .model m, .c (.term b) => do
     if numericSingle (.term b) then .error .typeError
     else
-      let iterms ← m.common.mapM (fun x => inter x (.term b))
+      let iterms ← mapE (fun x => inter x (.term b)) m.common
       pure (.model (← addInteractions (m.common ++ [.term b]) iterms))
   | _, _ => .error .typeError
 
@@ -242,15 +255,15 @@ def matmul : Obj → Obj → R
     else if numericSingle (.term b) then .error .typeError
     else pure (.c (mkTerm (a ++ b)))
   | .c (.term a), .model m => do
-    let iterms ← m.common.mapM (fun t => inter (.term a) t)
+    let iterms ← mapE (fun t => inter (.term a) t) m.common
     pure (.model (modelOfC iterms))
   -- Model.__matmul__
   | .model m, .model o => do
-    let iterms ← (m.common.flatMap (fun x => o.common.map (fun y => (x, y)))).mapM
-      (fun p => inter p.1 p.2)
+    let iterms ← mapE (fun p => inter p.1 p.2)
+        (m.common.flatMap (fun x => o.common.map (fun y => (x, y))))
     pure (.model (modelOfC iterms))
   | .model m, .c (.term b) => do
-    let iterms ← m.common.mapM (fun x => inter x (.term b))
+    let iterms ← mapE (fun x => inter x (.term b)) m.common
     pure (.model (modelOfC iterms))
   | _, _ => .error .typeError
 
@@ -265,7 +278,7 @@ def div : Obj → Obj → R
     else if numericSingle (.term b) then .error .typeError
     else pure (.model (modelOfC [.term a, mkTerm (a ++ b)]))
   | .c (.term a), .model m => do
-    let iterms ← m.common.mapM (fun t => inter (.term a) t)
+    let iterms ← mapE (fun t => inter (.term a) t) m.common
     pure (.model (← addModel (modelOfC [.term a]) (modelOfC iterms)))
   -- Model.__truediv__
   | .model m, .c (.term b) => do
@@ -295,9 +308,9 @@ def pow : Obj → Obj → R
     if n ≥ 1 then do
       let combs := (List.range (n.toNat + 1)).flatMap (fun i =>
         if i ≥ 2 then combinations m.common i else [])
-      let iterms ← combs.mapM (fun ts => do
-        let cs ← ts.mapM comps
-        pure (mkTerm cs.flatten))
+      let iterms ← mapE (fun ts => do
+        let cs ← mapE comps ts
+        pure (mkTerm cs.flatten)) combs
       pure (.model (← addModel m (modelOfC iterms)))
     else .error .other       -- UnboundLocalError: `comb` is never assigned
   | .model _, .c (.term [_]) => .error .other
